@@ -57,6 +57,17 @@ pub fn on_cb(sub: usize) {
   });
 }
 
+/// The callback of a `finalize_threads` stage (suite `locks`).
+pub fn on_fin() {
+  TRACE.with(|t| {
+    let mut t = t.borrow_mut();
+    if t.on {
+      let hs: Vec<String> = held(&t).iter().map(|x| x.to_string()).collect();
+      t.tokens.push(format!("f0[{}]", hs.join(".")));
+    }
+  });
+}
+
 /// Start a fresh trace on this thread (cells renumbered) and switch the hook on.
 pub fn start() {
   TRACE.with(|t| {
